@@ -259,7 +259,8 @@ def judgeRun (env : Env) (ctx0 : Ctx) (root : NodeId) (vis : NodeId → Nat) (ca
         | .leaf _, [] => (match o.out with | .err _ => true | _ => false)
         | .leaf _, _ => false
         | _, _ => true)
-  let c02 := !cancelFree || leafSegs.all (fun (cfg, scr, _, seg) => c02Visit cfg scr seg)
+  let c02 := leafSegs.all (fun (cfg, scr, _, seg) => c02Bounds cfg scr seg)
+    && (!cancelFree || leafSegs.all (fun (cfg, scr, _, seg) => c02Visit cfg scr seg))
   let c03 := !cancelFree || Spec.c03 env root vis FUEL o
   let c04 := !cancelFree || Spec.c04 env o
   -- C05 speaks of non-batch nodes and flows; a batch node run directly is judged by C11
